@@ -497,7 +497,17 @@ package larking
 //@   assert atcall `protoreflect.ValueOfBytes(` [bytes-values-only-for-bytes-fields C03] kind == protoreflect.BytesKind
 //@   assert atcall `protoreflect.ValueOfEnum(` [enum-values-only-for-enum-fields C03] kind == protoreflect.EnumKind
 //@   assert atcall `protoreflect.ValueOfMessage(` [message-values-only-for-message-fields C03] kind == protoreflect.MessageKind
-//@ func (tokens).String trusted pure
+// tokens.String is the concatenation of the token texts (C01: the text a variable captures is
+// exactly the path text its tokens cover). CatLen(toks, k) is the length of the first k texts.
+//@ rec CatLen(toks, k) Int = k <= 0 ? 0 : CatLen(toks, k-1) + len(toks[k-1].val)
+//@ func (tokens).String serves C01 C02 trusted pure partial post inv.init inv.keep
+//@   ensures [the-length-is-the-sum-of-the-token-lengths C01 C02] len(result) == CatLen(toks, len(toks))
+//@   ensures [every-token-text-is-in-its-place C01 C02] forall k, j :: 0 <= k && k < len(toks) && 0 <= j && j < len(toks[k].val) ==> result[CatLen(toks, k) + j] == toks[k].val[j]
+//@   loop 1 invariant -1 <= rangeindex && rangeindex < len(toks) && len(sbstr(&b)) == CatLen(toks, rangeindex + 1)
+//@   loop 1 invariant forall k :: 0 <= k && k <= rangeindex + 1 ==> 0 <= CatLen(toks, k) && CatLen(toks, k) <= CatLen(toks, rangeindex + 1)
+//@   loop 1 invariant forall k :: 0 <= k && k <= rangeindex ==> CatLen(toks, k) + len(toks[k].val) <= CatLen(toks, rangeindex + 1)
+//@   loop 1 invariant forall k, j :: 0 <= k && k <= rangeindex && 0 <= j && j < len(toks[k].val) ==> sbstr(&b)[CatLen(toks, k) + j] == toks[k].val[j]
+//@   loop 1 unfold CatLen(toks, rangeindex + 2)
 
 //@ func (*path).search serves C01 C02 C09
 //@   returns (m, ps, err)
